@@ -40,6 +40,10 @@ def run(ctx: Context) -> None:
     _infra.reviewed_overrides(ctx, 'R06.10')
     from .common import adopt_foundations as _adopt
     _adopt(ctx, 'R06.9', ['order', 'topology'], floor=60)
+    ctx.rule('R06.12', "each coordinate role is bound to its own name: latitude reads latitude_name, longitude bounds come from longitude, an Arakawa grid from its own kind", floor=14)
+    with ctx.section('R06.12'):
+        from . import infra as _infra612
+        _infra612.role_bindings(ctx, 'R06.12')
     ctx.rule('R06.11', "the coordinates a CF grid is built from are found by CF's own markers: units in the CF spellings, standard_name, or axis - any one, and nothing else", floor=4)
     with ctx.section('R06.11'):
         from . import infra as _infra611
@@ -588,6 +592,9 @@ _U = 'src/emsarray/conventions/ugrid.py'
 _B = 'src/emsarray/conventions/_base.py'
 _S = 'src/emsarray/conventions/shoc.py'
 VARIANTS = [
+    V('C06', 'latitude-reads-longitude-name', 'src/emsarray/conventions/grid.py', "        return self.dataset[self.latitude_name]", "        return self.dataset[self.longitude_name]", 'R06.12'),
+    V('C06', 'arakawa-left-grid-is-back-grid', 'src/emsarray/conventions/arakawa_c.py', "        return self._topology_for_grid_kind[ArakawaCGridKind.left]", "        return self._topology_for_grid_kind[ArakawaCGridKind.back]", 'R06.12'),
+    V('C06', 'arakawa-inventory-names-left-longitude-twice', 'src/emsarray/conventions/arakawa_c.py', "            self.left.latitude.name,", "            self.left.longitude.name,", 'R06.12'),
     V('C06', 'longitude-units-test-inverted', 'src/emsarray/conventions/grid.py', "                    variable.attrs.get('units') in CF_LONGITUDE_UNITS", "                    variable.attrs.get('units') not in CF_LONGITUDE_UNITS", 'R06.11'),
     V('C06', 'latitude-needs-all-markers', 'src/emsarray/conventions/grid.py', "                    variable.attrs.get('units') in CF_LATITUDE_UNITS\n                    or variable.attrs.get('standard_name') == 'latitude'", "                    variable.attrs.get('units') in CF_LATITUDE_UNITS\n                    and variable.attrs.get('standard_name') == 'latitude'", 'R06.11'),
     V('C06', 'latitude-axis-x', 'src/emsarray/conventions/grid.py', "                    or variable.attrs.get('axis') == 'Y'", "                    or variable.attrs.get('axis') == 'X'", 'R06.11'),
